@@ -14,7 +14,7 @@ import (
 
 func init() {
 	register(&Rule{
-		ID: "OG", Props: []string{"C16"}, Min: 25,
+		ID: "OG", Props: []string{"C16"}, Min: 17,
 		Doc: `guard/use coherence: in the builders of pkg/obitools/* that return a SequencePredicate or a SeqWorker, every if-statement whose condition tests package-level option
 variables (directly or through a trivial accessor 'func() T { return _opt }') and whose guarded block reads option variables must read at least one of the tested ones:
 a block that builds its criterion from other options only is a criterion honoured when an unrelated option is given.`,
